@@ -168,7 +168,7 @@ def judge_readers(s, docs, tmpdir, rng):
                 '<!DOCTYPE' not in d else d for d in docs]
         hows = ('strings',)
     else:
-        hows = ('strings', 'files', 's3')
+        hows = ('strings', 'files', 's3', 'files-mixed')
     for how in hows:
         shuffled = list(docs)
         rng.shuffle(shuffled)
@@ -203,6 +203,32 @@ def judge_readers(s, docs, tmpdir, rng):
     if len(set(texts.values())) != 1:
         s.custom_violation('constructors-disagree', {'outcomes': {k: v[:40] for k, v in texts.items()}},
                            {'type': 'readers', 'docs': docs}, status='merge')
+
+
+def empty_lists(s, tmpdir):
+    """Nothing to read: every constructor refuses the same way."""
+    import mosromgr.moscollection as mcmod
+    f3 = K.ensure_fake_s3()
+    f3.BUCKETS['emptyb'] = [('other/x.mos.xml', b'<mos/>'), ('pre/fix/readme.txt', b'x')]
+    got = {}
+    EV.STATE['quiet'] = EV.STATE.get('quiet', 0) + 1
+    try:
+        for inc in (False, True):
+            for name, fn in (('strings', lambda: mcmod.MosCollection.from_strings([], allow_incomplete=inc)),
+                             ('files', lambda: mcmod.MosCollection.from_files([], allow_incomplete=inc)),
+                             ('s3', lambda: mcmod.MosCollection.from_s3(bucket_name='emptyb', prefix='pre/fix/', allow_incomplete=inc))):
+                try:
+                    fn()
+                    got[(name, inc)] = 'accepted'
+                except Exception as e:
+                    got[(name, inc)] = type(e).__name__
+    finally:
+        EV.STATE['quiet'] -= 1
+    s.evaluations += 1
+    s.note_sig(('empty-lists', tuple(sorted(set(got.values())))))
+    if set(got.values()) != {'InvalidMosCollection'}:
+        s.custom_violation('constructors-disagree', {'outcomes': {'%s/%s' % k: v for k, v in got.items()}, 'list': 'empty'},
+                           {'type': 'empty-lists'}, status='empty')
 
 
 def listings(s, i):
@@ -280,6 +306,8 @@ def run(s):
         for i in range(100 if q else 5000):
             if s.mine(i):
                 readers(s, i, tmpdir)
+        if s.mine(0):
+            empty_lists(s, tmpdir)
         for i in range(300 if q else 15000):
             if s.mine(i):
                 listings(s, i)
@@ -295,6 +323,8 @@ def replay(s, data):
             judge_sources(s, w['doc'], w['encoding'], 'replay', tmpdir)
         elif w.get('type') == 'readers':
             judge_readers(s, w['docs'], tmpdir, s.rng('replay'))
+        elif w.get('type') == 'empty-lists':
+            empty_lists(s, tmpdir)
         elif w.get('type') == 'listing':
             judge_listing(s, w['keys'], [w['prefix']], w['suffix'], w['page_size'])
         else:
